@@ -228,6 +228,10 @@ func (c *ConfigFile) validateCommonFields() (*ConfigFile, error) {
 	if c.Default.Concurrency == nil {
 		c.Default.Concurrency = c.Limits.Concurrency
 	}
+	if c.Default.Jitter == nil {
+		noJitter := 0.0
+		c.Default.Jitter = &noJitter
+	}
 
 	return c, nil
 }
